@@ -100,7 +100,7 @@ pub fn reply_pool(rng: &mut StdRng) -> String {
 }
 
 /// `progs`: generated structured programs, run to completion.
-pub fn record_programs(seed: u64, n: usize, out: &str, with_input: bool, trace: bool, warn: bool, rep: &mut Report) {
+pub fn record_programs(seed: u64, n: usize, out: &str, with_input: bool, trace: bool, warn: bool, breaks: bool, rep: &mut Report) {
     let mut rec = Rec::new(out);
     for i in 0..n {
         let mut rng = StdRng::seed_from_u64(seed.wrapping_mul(1_000_003).wrapping_add(i as u64));
@@ -112,7 +112,34 @@ pub fn record_programs(seed: u64, n: usize, out: &str, with_input: bool, trace: 
         let mut s = rec.reset(i as u64, trace, warn, json!({"driver": "progs", "program": lines}));
         let mut rng2 = StdRng::seed_from_u64(seed ^ (i as u64) << 20);
         let mut replies = || reply_pool(&mut rng2);
-        run_program(&mut rec, i as u64, &mut s, &lines, &mut replies, 1500);
+        if breaks {
+            // the host also breaks in between statements (anywhere in a line) and resumes with CONT:
+            // each of those calls, too, executes at most one statement
+            for l in &lines {
+                if s.dead { break; }
+                rec.call(i as u64, &mut s, call_submit(l));
+            }
+            if !s.dead && s.mode() == "idle" {
+                rec.call(i as u64, &mut s, call_submit("RUN"));
+                let mut rng3 = StdRng::seed_from_u64(seed ^ 0xB4EA ^ (i as u64) << 16);
+                let mut n = 0;
+                while !s.dead && n < 1500 {
+                    match s.mode() {
+                        "running" | "awaiting" if rng3.gen_bool(0.12) => {
+                            rec.call(i as u64, &mut s, call_simple("break"));
+                            if !s.dead { rec.call(i as u64, &mut s, call_submit("CONT")); }
+                        }
+                        "running" => { rec.call(i as u64, &mut s, call_simple("continue")); }
+                        "awaiting" => { let r = replies(); rec.call(i as u64, &mut s, call_provide(&r)); }
+                        _ => break,
+                    }
+                    n += 1;
+                }
+                if !s.dead && s.mode() != "idle" { rec.call(i as u64, &mut s, call_simple("break")); }
+            }
+        } else {
+            run_program(&mut rec, i as u64, &mut s, &lines, &mut replies, 1500);
+        }
         rep.count("programs");
         rep.sample(json!({"program": lines}));
     }
@@ -594,6 +621,14 @@ pub fn record_inputassign(seed: u64, n: usize, out: &str, rep: &mut Report) {
         let cfg2 = RunCfg { lines: &assigned, ..cfg };
         let (tb, lb) = run_scheduled(&mut rec, 2 * i + 1, &cfg2, &mut rng, json!({"driver": "inputassign", "role": "assignment", "program": assigned}));
         rep.count("pairs");
+        // a program that does not end within the call budget is cut at different statements in the two
+        // runs (INPUT takes two calls, an assignment one), and one that asks more often than there are
+        // scripted replies gets a different value: neither pair says anything about C08
+        let over = |t: &Transcript| t.items.last().map(|s| s == "BUDGET").unwrap_or(false);
+        if over(&ta) || over(&tb) || ta.items.iter().filter(|s| s.starts_with("INPUT<-")).count() >= replies.len() {
+            rep.count("pairs_over_budget");
+            continue;
+        }
         let strip = |t: &Transcript| -> Vec<String> { t.items.iter().filter(|s| !s.starts_with("INPUT<-")).cloned().collect() };
         if strip(&ta) != strip(&tb) || state_digest(&la) != state_digest(&lb) {
             rep.violation("C08", "input_differs_from_assignment", json!({}),
